@@ -67,6 +67,9 @@ type k2Ctx struct {
 	sample                                       []string
 	remote                                       bool
 	viols                                        []k2Viol
+	// poisoned: an instance could not be torn down (goroutines of it are stuck for good, e.g. on a state lock
+	// that is never released); the process must not host further instances
+	poisoned bool
 }
 
 func k2NewCtx(r *vk.Run, prop string, sc k2Scenario, c09, c13 bool) *k2Ctx {
@@ -366,7 +369,7 @@ func k2ErrStr(e error) string {
 	if e == nil {
 		return "nil"
 	}
-	return e.Error()
+	return strings.ReplaceAll(e.Error(), " ", "-")
 }
 
 // step performs action a, maintains model and monitors, and (report=true) evaluates the C09 oracle.
@@ -452,6 +455,12 @@ func (c *k2Ctx) step(k *k2Sys, a k2Action, report bool, hist []int, op int) ([]q
 		// the model has predicted the state after the call; the invariants compare (state-disagrees-with-model)
 		return blocked, true
 	}
+	if (a.Kind == "kstop" || a.Kind == "kstart") && k.lifeOp.Done() && (k.lifeOp.Err != nil || k.lifeOp.Pan != "") {
+		if report {
+			c.viol("keeper-stop-start-failed", strings.TrimPrefix(site, "after-"), fmt.Sprintf("%s returned %v %s", a, k.lifeOp.Err, k.lifeOp.Pan[:min(len(k.lifeOp.Pan), 200)]), hist, op)
+		}
+		return blocked, false
+	}
 	// plotter steps and keeper stop/start: every observed state change must be a documented edge
 	after := k.wsStates()
 	for i := range k.ws {
@@ -518,8 +527,8 @@ func k2DeadlockRoots(blocked []qsched.GoroutineInfo) (roots []string, sendUnderL
 		if !strings.Contains(g.Stack, "spacekeeper/skchia.") {
 			continue
 		}
-		if strings.HasPrefix(g.Reason, "sync.") || g.Reason == "semacquire" {
-			continue // waiting for the state lock (RWMutex.Lock queues on its writer mutex) or for a WaitGroup: consequences
+		if strings.HasPrefix(g.Reason, "sync.Mutex") || strings.HasPrefix(g.Reason, "sync.RWMutex") {
+			continue // waiting for the state lock (RWMutex.Lock queues on its writer mutex): a consequence
 		}
 		if strings.Contains(g.Stack, "(*SpaceKeeper).OnStop(") {
 			continue
@@ -666,7 +675,11 @@ func (c *k2Ctx) try(hist []int, op int) (key string, ops []int, expand bool) {
 
 func (c *k2Ctx) try1(hist []int, op int) (string, []int, bool, bool) {
 	k := k2New(c.sc.Initial, c.sc.Cfg, c.sc.ChanCap)
-	defer k.close()
+	defer func() {
+		if !k.close() {
+			c.poisoned = true
+		}
+	}()
 	var blocked []qsched.GoroutineInfo
 	all := append([]int{}, hist...)
 	if op >= 0 {
@@ -769,6 +782,7 @@ type k2Res struct {
 	Ops    []string `json:"ops"`
 	Expand bool     `json:"expand"`
 	Viols  []k2Viol `json:"viols,omitempty"`
+	Retire bool     `json:"retire,omitempty"` // the worker cannot host further instances and leaves after this reply
 }
 
 type k2Conn struct {
@@ -824,7 +838,7 @@ func k2Serve(r *vk.Run, prop string, scenarios []k2Scenario, c09, c13 bool, rule
 			r.Eval(1)
 		}
 		key, ops, expand := c.try(hist, op)
-		res := k2Res{Key: key, Expand: expand, Viols: c.viols}
+		res := k2Res{Key: key, Expand: expand, Viols: c.viols, Retire: c.poisoned}
 		c.viols = nil
 		for _, o := range ops {
 			res.Ops = append(res.Ops, c.acts[o].String())
@@ -832,6 +846,9 @@ func k2Serve(r *vk.Run, prop string, scenarios []k2Scenario, c09, c13 bool, rule
 		b, _ := json.Marshal(res)
 		if _, err := conn.Write(append(b, '\n')); err != nil {
 			vk.Fatalf("worker: %v", err)
+		}
+		if c.poisoned {
+			break
 		}
 	}
 	var outcomes []string
@@ -877,13 +894,12 @@ func k2Run(r *vk.Run, prop string, scenarios []k2Scenario, c09, c13 bool, rule s
 		for _, name := range rp.Actions {
 			ids = append(ids, c.parse(name))
 		}
-		for i := range ids {
-			c.try(ids[:i], ids[i])
+		from := 0
+		if len(ids) > 60 {
+			from = len(ids) - 1 // a scripted history: only the whole of it
 		}
-		if c13 && len(ids) > 0 { // a C13 replay ends with the drain, wherever it was recorded
-			sc.Horizon = len(ids) - 1
-			c.sc = sc
-			c.try(ids[:len(ids)-1], ids[len(ids)-1])
+		for i := from; i < len(ids) && !c.poisoned; i++ {
+			c.try(ids[:i], ids[i])
 		}
 		r.Eval(len(ids))
 		r.DistinctN(len(ids))
@@ -909,7 +925,14 @@ func k2Run(r *vk.Run, prop string, scenarios []k2Scenario, c09, c13 bool, rule s
 	}
 	os.Setenv("VERIF_K2_SOCK", sock)
 	pool := make(chan *k2Conn, n)
-	var live int32
+	var live, accepted int32
+	allGone := make(chan struct{}) // closed when no worker is left (all connected ones retired or died, or all children exited)
+	var goneOnce sync.Once
+	leave := func() {
+		if atomic.AddInt32(&live, -1) == 0 && atomic.LoadInt32(&accepted) == int32(n) {
+			goneOnce.Do(func() { close(allGone) })
+		}
+	}
 	go func() {
 		for {
 			c, err := ln.Accept()
@@ -917,28 +940,36 @@ func k2Run(r *vk.Run, prop string, scenarios []k2Scenario, c09, c13 bool, rule s
 				return
 			}
 			atomic.AddInt32(&live, 1)
+			atomic.AddInt32(&accepted, 1)
 			pool <- &k2Conn{c: c, rd: bufio.NewReaderSize(c, 1<<20)}
 		}
 	}()
-	var connected int32
 	rpc := func(j k2Job) (k2Res, bool) {
 		for {
-			if atomic.LoadInt32(&connected) != 0 && atomic.LoadInt32(&live) == 0 {
+			var w *k2Conn
+			select {
+			case w = <-pool:
+			case <-allGone:
 				return k2Res{}, false
 			}
-			w := <-pool
-			atomic.StoreInt32(&connected, 1)
 			res, err := w.call(j)
 			if err != nil {
 				// the worker died (a panic in a goroutine of the keeper kills the process: RunShards reports it)
 				w.c.Close()
-				atomic.AddInt32(&live, -1)
+				leave()
 				r.Cap("a worker process died while executing a transition; that transition and its subtree are unexplored")
+				r.Set("transition_during_which_a_worker_died", fmt.Sprintf("scenario %d: %v + %s", j.Sc, j.Hist, j.Op))
 				return k2Res{}, false
 			}
-			pool <- w
 			for _, v := range res.Viols {
 				r.Violation(v.FP, v.What, v.Case)
+			}
+			if res.Retire {
+				w.c.Close()
+				leave()
+				r.Cap("a worker process retired because an instance could not be torn down (goroutines stuck for good); if all workers retire the rest of the search is skipped")
+			} else {
+				pool <- w
 			}
 			return res, true
 		}
@@ -1012,13 +1043,18 @@ func k2Run(r *vk.Run, prop string, scenarios []k2Scenario, c09, c13 bool, rule s
 		}
 		// release the workers
 		for atomic.LoadInt32(&live) > 0 {
-			w := <-pool
-			b, _ := json.Marshal(k2Job{Done: true})
-			w.c.Write(append(b, '\n'))
-			atomic.AddInt32(&live, -1)
+			select {
+			case w := <-pool:
+				b, _ := json.Marshal(k2Job{Done: true})
+				w.c.Write(append(b, '\n'))
+				atomic.AddInt32(&live, -1)
+			case <-allGone:
+				return
+			}
 		}
 	}()
 	r.RunShards(n, 1)
+	goneOnce.Do(func() { close(allGone) })
 	<-coordDone
 	ln.Close()
 	r.Set("states", states)
@@ -1081,7 +1117,7 @@ func TestVerifC09Chia(t *testing.T) {
 	}
 	// family (b): registered spaces (not reachable from NewWorkSpace)
 	add("b", "RY", "none", vk.Pick(r, 7, 24), 2, k2Alphabet(2, k2BulkB, false, true, nil))
-	add("b", "RR", "none", vk.Pick(r, 6, 9), 2, k2Alphabet(2, k2BulkB, false, false, nil))
+	add("b", "RR", "none", vk.Pick(r, 6, 10), 2, k2Alphabet(2, k2BulkB, false, false, nil))
 	if r.Thorough() {
 		add("b", "RRY", "none", 6, 2, k2Alphabet(3, nil, false, false, nil))
 	}
